@@ -2032,13 +2032,21 @@ fn split_unsigned_range(
     min: u64,
     max: u64,
 ) -> Vec<Ctor> {
+    // The range is partitioned at all bounds that occur in the patterns, so that every resulting
+    // sub-range is either fully covered or not covered at all by each of the patterns:
     let mut split_points = vec![min as u128, max as u128 + 1];
     for p in patterns {
         let head = p.first().unwrap();
         let Pattern(head_enum, _, _) = head;
         match head_enum {
-            PatternEnum::NumUnsigned(n, _) => split_points.push(*n as u128),
-            PatternEnum::NumSigned(n, _) if *n >= 0 => split_points.push(*n as u128),
+            PatternEnum::NumUnsigned(n, _) => {
+                split_points.push(*n as u128);
+                split_points.push(*n as u128 + 1);
+            }
+            PatternEnum::NumSigned(n, _) if *n >= 0 => {
+                split_points.push(*n as u128);
+                split_points.push(*n as u128 + 1);
+            }
             PatternEnum::UnsignedInclusiveRange(min, max, _) => {
                 split_points.push(*min as u128);
                 split_points.push(*max as u128 + 1);
@@ -2054,34 +2062,13 @@ fn split_unsigned_range(
             _ => {}
         }
     }
+    split_points.retain(|p| *p >= min as u128 && *p <= max as u128 + 1);
     split_points.sort_unstable();
     split_points.dedup();
-    let mut ranges = vec![];
-    for range in split_points.windows(2) {
-        if range[0] < range[1] - 1 {
-            ranges.push(Ctor::UnsignedInclusiveRange(
-                ty,
-                range[0] as u64,
-                range[0] as u64,
-            ));
-        }
-        if range[0] >= min as u128 && range[1] - 1 <= max as u128 {
-            if range[0] < range[1] - 1 {
-                ranges.push(Ctor::UnsignedInclusiveRange(
-                    ty,
-                    range[0] as u64 + 1,
-                    (range[1] - 1) as u64,
-                ));
-            } else {
-                ranges.push(Ctor::UnsignedInclusiveRange(
-                    ty,
-                    range[0] as u64,
-                    (range[1] - 1) as u64,
-                ));
-            }
-        }
-    }
-    ranges
+    split_points
+        .windows(2)
+        .map(|range| Ctor::UnsignedInclusiveRange(ty, range[0] as u64, (range[1] - 1) as u64))
+        .collect()
 }
 
 fn split_signed_range(
@@ -2090,6 +2077,7 @@ fn split_signed_range(
     min: i64,
     max: i64,
 ) -> Vec<Ctor> {
+    // (see split_unsigned_range)
     let mut split_points = vec![min as i128, max as i128 + 1];
     for p in patterns {
         let head = p.first().unwrap();
@@ -2114,28 +2102,13 @@ fn split_signed_range(
             _ => {}
         }
     }
-    // (split points outside of the range that is being split are irrelevant)
     split_points.retain(|p| *p >= min as i128 && *p <= max as i128 + 1);
     split_points.sort_unstable();
     split_points.dedup();
-    let mut ranges = vec![];
-    for range in split_points.windows(2) {
-        if range[0] < range[1] - 1 {
-            ranges.push(Ctor::SignedInclusiveRange(
-                ty,
-                range[0] as i64,
-                range[0] as i64,
-            ));
-        }
-        if range[0] >= min as i128 && range[1] - 1 <= max as i128 {
-            ranges.push(Ctor::SignedInclusiveRange(
-                ty,
-                range[0] as i64,
-                (range[1] - 1) as i64,
-            ));
-        }
-    }
-    ranges
+    split_points
+        .windows(2)
+        .map(|range| Ctor::SignedInclusiveRange(ty, range[0] as i64, (range[1] - 1) as i64))
+        .collect()
 }
 
 fn split_ctor(patterns: &[PatternStack], q: &[TypedPattern], defs: &Defs) -> Vec<Ctor> {
